@@ -187,7 +187,7 @@ class Prop(PropBase):
             # and the eager chirp are the same function of the same numbers — bit for bit
             return {"dm": rng.choice([1e-5, 30.0, 500.0, -3000.0]), "ref": rng.choice(["center", "top", "none", "far", "inf"])}
         if op in ("coherent", "incoherent", "coherent_chirp"):
-            return {"dm": rng.choice([1e-5, 3e-5, -2e-5, 1e-6]), "ref": rng.choice(["center", "top", "none"])}
+            return {"dm": rng.choice([1e-5, 3e-5, -2e-5, 1e-6, 0.0]), "ref": rng.choice(["center", "top", "none"])}      # also no dispersion at all
         if op in ("concat0", "concat1"):
             return {"split": rng.randint(1, (shape[0] if op == "concat0" else max(shape[1], 2)) - 1) if (op == "concat0" or shape[1] > 1) else 1}
         if op == "snippet":
